@@ -75,3 +75,10 @@ def _(L):
     z = z3.IntVal(0)
     L.prove("A6", z3.Implies(desc6(en, ex, ey, z, z, z),
                              z3.And(en >= 0, ex >= 0, ey >= 0, ex < ops.pow2(en), ey < ops.pow2(en))))
+
+
+@lemma("nested_div_by_two")
+def _(L):
+    """(X div P) div 2 == X div (2P) for P >= 1 (used for shifts: x >> (m+1) == (x >> m) >> 1)."""
+    X, P = z3.Ints("X P")
+    L.prove("general", z3.Implies(z3.And(P >= 1, X >= 0), (X / P) / 2 == X / (2 * P)))
